@@ -30,7 +30,7 @@ struct Member {
 }
 
 fn free_addr() -> std::net::SocketAddr {
-    std::net::TcpListener::bind("127.0.0.1:0").unwrap().local_addr().unwrap()
+    vcommon::free_addr()
 }
 
 /// Ports are picked before the nodes bind them; if another process takes one in between, the whole cluster is
